@@ -147,3 +147,27 @@ Theorem key_case_collision_refuted :
   roundtrip_ok_b toy_strtod toy_fmt (snd (run toy_strtod toy_fmt empty_world (firstn 7 case_history)))
                  (get_opts (snd (run toy_strtod toy_fmt empty_world (firstn 7 case_history))) 0) = false.
 Proof. vm_compute. repeat split; reflexivity. Qed.
+
+(* ---- F-C17k: an entry and a section heading in one dictionary slot ----
+   object 2 {-k/--kk} inside object 1 {-b/--b, a switch} under "B", object 1 inside object 0 under "pre":
+   object 0 saves the entry b of [pre] and, after it, the heading [pre:B].  iniparser lower-cases both and
+   keeps headings and entries in one dictionary: the heading puts NULL into the slot "pre:b", sc_options_load
+   takes the slot for "a section heading of the same name" and leaves the switch of the fresh copy alone. *)
+Definition sec_decl (base vb : nat) : list op :=
+  [ ONew (base + 2); OAdd (base + 2) TInt 107 (Some t_kk) (vb + 0) 0 0 (IInt 0);
+    ONew (base + 1); OAdd (base + 1) TSwitch 98 (Some [98]) (vb + 1) 0 0 INone; OSub (base + 1) (base + 2) [66];
+    ONew base; OSub base (base + 1) t_pre ].
+
+Definition sec_history : list op :=
+  sec_decl 0 0 ++ sec_decl 4 32 ++
+  [ OParse 0 [GLong 0 None; GLong 1 (Some [55]); GEnd] 4 [t_prog; t_f; t_f; [55]];     (* p --pre:b --pre:B:kk 7 *)
+    OSave 0 t_f; OLoad 4 t_f ].
+
+Theorem key_section_collision_refuted :
+  let r := run toy_strtod toy_fmt empty_world sec_history in
+  skipn 14 (fst r) = [4; 0; 0] /\                                                  (* parse, save, load all succeed *)
+  (st_int (w_store (snd r)) 1, st_int (w_store (snd r)) 0) = (1, 7) /\            (* saved: switch 1, kk 7 *)
+  (st_int (w_store (snd r)) 33, st_int (w_store (snd r)) 32) = (0, 7) /\          (* reloaded: switch 0, kk 7 *)
+  roundtrip_ok_b toy_strtod toy_fmt (snd (run toy_strtod toy_fmt empty_world (firstn 15 sec_history)))
+                 (get_opts (snd (run toy_strtod toy_fmt empty_world (firstn 15 sec_history))) 0) = false.
+Proof. vm_compute. repeat split; reflexivity. Qed.
